@@ -170,3 +170,69 @@ pub fn c10_native_all_crash_points() {
     }
     assert!(bad.is_empty(), "{} crash points fail natively", bad.len());
 }
+
+/// Fewer than two completed flushes before the one that is killed: `history` 0 = empty data directory (first flush
+/// ever), 1 = one completed flush (snapshot 1 in slot a, selector present, slot b empty).
+fn crash_in_early_flush(history: u8, c: u32, periodic: bool) {
+    let cfg = Config { data_dir: h_reset() };
+    if history == 1 {
+        h_set_toggle(true);
+        h_put_snapshot(0, 1, 4, 7);
+    }
+    let k = history + 1;
+    h_arm(c);
+    let done = flush(&cfg, k, periodic);
+    assert!(done == (c >= NOPS), "C10: a flush reports success exactly when all its file operations happened");
+    h_restart();
+    let r = aw!(load(&cfg));
+    match r {
+        Ok(wb) => {
+            assert!(wb.store == k || (history == 1 && wb.store == 1 && !done),
+                "C10: the next start recovers the last completed flush or the one in progress, never an older snapshot");
+            assert!(wb.applied_gg && wb.applied_gg_id == wb.store + 3 && wb.applied_lw && wb.applied_lw_id == wb.store + 6,
+                "C10: the grave goods and last wills applied are those of the SAME snapshot as the store");
+            core::mem::forget(wb);
+        }
+        Err(e) => {
+            core::mem::forget(e);
+            // nothing was ever flushed completely: an empty start is the state of "the last completed flush"
+            assert!(history == 0 && !done, "C10: a start after a crash finds the last completed flush");
+        }
+    }
+    #[cfg(kani)]
+    kani::cover!(true, "the restart was reached");
+}
+macro_rules! early_h {
+    ($name:ident, $history:expr, $periodic:expr, $lo:expr) => {
+        #[cfg_attr(kani, kani::proof)]
+        #[cfg_attr(kani, kani::unwind(12))]
+        #[cfg_attr(not(kani), test)]
+        pub fn $name() {
+            let c: u32 = kani::any();
+            kani::assume(c >= $lo && c < $lo + 5);
+            h_set_torn_byte(kani::any());
+            if c == $lo { crash_in_early_flush($history, $lo, $periodic) }
+            else if c == $lo + 1 { crash_in_early_flush($history, $lo + 1, $periodic) }
+            else if c == $lo + 2 { crash_in_early_flush($history, $lo + 2, $periodic) }
+            else if c == $lo + 3 { crash_in_early_flush($history, $lo + 3, $periodic) }
+            else { crash_in_early_flush($history, $lo + 4, $periodic) }
+        }
+    };
+}
+// @h props=C10 tier=thorough cap=900 mem=12 autounwind=24 desc="the FIRST flush ever (empty data directory) killed after c file operations, c in 0..=4 and the torn byte chosen by the solver; then restart and load" bounds="14 file operations per flush; snapshots are tokens"
+early_h!(c10_crash_early_h0_c0, 0, false, 0);
+
+// @h props=C10 tier=thorough cap=900 mem=12 autounwind=24 desc="the FIRST flush ever (empty data directory) killed after c file operations, c in 5..=9 and the torn byte chosen by the solver; then restart and load" bounds="14 file operations per flush; snapshots are tokens"
+early_h!(c10_crash_early_h0_c5, 0, false, 5);
+
+// @h props=C10 tier=thorough cap=900 mem=12 autounwind=24 desc="the FIRST flush ever (empty data directory) killed after c file operations, c in 10..=14 and the torn byte chosen by the solver; then restart and load" bounds="14 file operations per flush; snapshots are tokens"
+early_h!(c10_crash_early_h0_c10, 0, false, 10);
+
+// @h props=C10 tier=quick cap=900 mem=12 autounwind=24 desc="the SECOND flush (one completed flush before) killed after c file operations, c in 0..=4 and the torn byte chosen by the solver; then restart and load" bounds="14 file operations per flush; snapshots are tokens"
+early_h!(c10_crash_early_h1_c0, 1, false, 0);
+
+// @h props=C10 tier=quick cap=900 mem=12 autounwind=24 desc="the SECOND flush (one completed flush before) killed after c file operations, c in 5..=9 and the torn byte chosen by the solver; then restart and load" bounds="14 file operations per flush; snapshots are tokens"
+early_h!(c10_crash_early_h1_c5, 1, false, 5);
+
+// @h props=C10 tier=quick cap=900 mem=12 autounwind=24 desc="the SECOND flush (one completed flush before) killed after c file operations, c in 10..=14 and the torn byte chosen by the solver; then restart and load" bounds="14 file operations per flush; snapshots are tokens"
+early_h!(c10_crash_early_h1_c10, 1, false, 10);
